@@ -31,6 +31,12 @@ func classFor(i int, rng *rand.Rand, tallEvery int) string {
 	if tallEvery > 0 && i%tallEvery == tallEvery-1 {
 		return "tall"
 	}
+	if i%61 == 60 {
+		return "multi"
+	}
+	if i%47 == 46 {
+		return "xwide"
+	}
 	cl := []string{"small", "one", "wide", "deep", "mid", "small", "stored", "empty", "mid", "deep"}
 	return cl[i%len(cl)]
 }
